@@ -103,7 +103,22 @@ def h2Events : List String → H2Conn → List FrameIn → List String → List 
       | some f => h2Events rest c (f :: batch) acc
       | none => h2Events rest c batch ("bad-frame" :: acc)
 
+/-- receive-side credit: "credit <fudge0> <len> <len> ..." -> "<total returned> <final fudge>" -/
+def creditLine (args : List String) : String :=
+  match args with
+  | f0 :: lens =>
+    let rec go (f : Int) (ls : List String) (tot : Nat) : Int × Nat :=
+      match ls with
+      | [] => (f, tot)
+      | l :: rest =>
+        let r := fudgeUpdate f ((l.toNat?).getD 0)
+        go r.1 rest (tot + (if r.2 then 16384 else 0))
+    let r := go ((f0.toInt?).getD 0) lens 0
+    s!"{r.2} {r.1}"
+  | _ => "bad-op"
+
 def h2Line : List String → String
+  | "credit" :: args => creditLine args
   | "fc" :: evs => String.intercalate " / " (fcEvents evs FcConn.init [])
   | "h2" :: evs => String.intercalate " / " (h2Events evs {} [] [])
   | _ => "bad-op"
